@@ -41,6 +41,7 @@ class Under(io.BytesIO):
 
 class Check(CheckBase):
     property_id = 'C20'
+    evaluations_counter = 'programs'
     level = 'exploration'
     rule = ('(bound) programs of read or write calls of sizes d <= L/4 (constant, random, bursts, and the sizes the commands derive: '
             'L // (16 N), min 1) through RateLimitedIO.wrap on N in {1,2,5,16} streams sharing one limiter, L in {4,7,1000,64000,1e6,1e9}, '
